@@ -16,7 +16,7 @@ for f in /verif/neutral/*/patch-*.diff; do
   grep -q "^+++ b/analysis/dataflow/trace.go" $f && props="$props C07"
   grep -q "^+++ b/analysis/dataflow/function_summary_graph.go" $f && props="$props C09 C10"
   props=$(echo $props | tr ' ' '\n' | sort -u | tr '\n' ' ')
-  [ -z "$props" ] && continue
+  [ -z "${props// /}" ] && continue
   ( out=$(PROPS="$props" /verif/tools/one_neutral.sh $f); echo "$out [$props]" ) &
   n=$((n+1))
   if [ $n -ge $j ]; then wait -n; n=$((n-1)); fi
